@@ -270,7 +270,40 @@ def run(F, R, tier):
                 "status.tag is only ever the target of fs::rename(status.tag.tmp -> status.tag), behind the Ok edge of fs::write(status.tag.tmp)",
                 "status.tag file-system uses: %s" % uses_tag)
 
-    # ------------------------------------------------------------------ R5
+    # ------------------------------------------------------------------ R5 helper contracts behind the query
+    from lib import contracts
+    contracts.conjunction_of_ne(F, R, "C16.R5", PV + "ProvisionStateInternal::is_secure_channel_latched", "key_keeper_secure_channel_state",
+                                ["DISABLE_STATE", "UNKNOWN_STATE"], "'the secure channel is already latched'")
+    if act:
+        Ba = mir.Body(act, F)
+        tl = [i for i, l in enumerate(Ba.locals) if l.get("name") == "provision_finished_time_tick"]
+        okt, det = len(tl) == 1, []
+        if okt:
+            arms_ = q.actor_arms(Ba, F, PW + "ProvisionAction")
+            setarm = arms_.get("SetProvisionFinished")
+            for (bi, si, kind, payload) in Ba.defs[tl[0]]:
+                org = Ba.origins(payload["rv"]["o"]) if kind == "assign" and payload["rv"]["k"] == "use" else set()
+                if org and all(o[0] == "const" and o[2] == 0 for o in org):
+                    det.append("0")
+                elif org and all(o[0] == "call" and q.ends(o[1], "misc_helpers::get_date_time_unix_nano") for o in org) and setarm and bi in setarm[2]:
+                    det.append("now@SetProvisionFinished")
+                else:
+                    det.append("other@line %s" % Ba.line(bi))
+                    okt = False
+            okt = okt and "now@SetProvisionFinished" in det
+            # replies of Set/GetProvisionFinished carry the variable itself
+            for arm in ("SetProvisionFinished", "GetProvisionFinished"):
+                a_ = arms_.get(arm)
+                sends_ = [b for b in (a_[2] if a_ else []) if Ba.blocks[b]["term"]["k"] == "call" and
+                          q.ends(mir.callee_of(Ba.blocks[b]["term"])[0], "oneshot::Sender::send") and
+                          all(b not in o[2] for n2, o in arms_.items() if n2 != arm)]
+                if not sends_ or not all(copy_of_local(Ba, Ba.blocks[b]["term"]["args"][1], tl[0]) for b in sends_):
+                    okt = False
+                    det.append("%s does not reply the tick variable" % arm)
+        R.check(okt, "C16.R5", "C16.R5:%s:finished-tick" % act["id"], "-",
+                "the finished tick is 0 or the clock at the SetProvisionFinished(true) message, and both replies return that variable (%s)" % det,
+                "finished tick definitions / replies: %s" % det)
+
     gi = F.body_of(PV + "get_provision_state_internal")
     if not gi:
         R.fail("C16.R5", "C16.R5:anchor-missing:get_provision_state_internal", "-", "anchor-missing=provision::get_provision_state_internal")
